@@ -265,6 +265,148 @@ theorem latitudes_ordered (el : Ellipsoid ℝ) (hf0 : 0 ≤ el.f) (hf1 : el.f < 
           simpa using this
       _ = phi := hphi
 
+/-! ### Bowring's closed form is exact on the surface -/
+
+theorem powi_two (x : ℝ) : Scalar.powi x 2 = x ^ 2 := by
+  simp [Scalar.powi, Scalar.powiLoop]; ring
+theorem powi_three (x : ℝ) : Scalar.powi x 3 = x ^ 3 := by
+  simp [Scalar.powi, Scalar.powiLoop]; ring
+
+/-- the distance from the axis below which `geographic` answers "pole" -/
+noncomputable def tinyLit : ℝ := @OfScientific.ofScientific ℝ Scalar.instOfScientific 10 true 13
+theorem tinyLit_eq : tinyLit = 1 / 10 ^ 12 := by
+  simp [tinyLit, OfScientific.ofScientific, Scalar.ofSci, Lit.toReal]; norm_num
+
+/-- the algebra of Bowring's formula on the surface: with `q = 1 - f`, `W² = cos²φ + q² sin²φ`,
+`p = a cosφ / W`, `Z = a q² sinφ / W`, numerator and denominator are `K sinφ` and `K cosφ`, `K = a q² / W³` -/
+theorem bowring_surface (a q s c W : ℝ) (ha : 0 < a) (hq : 0 < q) (hc : 0 < c) (hW : 0 < W)
+    (hcs : s ^ 2 + c ^ 2 = 1) (hW2 : W ^ 2 = c ^ 2 + q ^ 2 * s ^ 2) :
+    let es := 1 - q ^ 2
+    let eps := es / (1 - es)
+    let b := a * q
+    let p := a * c / W
+    let Z := a * q ^ 2 * s / W
+    let T := Z * a / (p * b)
+    let cc := 1 / Real.sqrt (1 + T * T)
+    let ss := cc * T
+    let K := a * q ^ 2 / W ^ 3
+    Z + eps * b * ss ^ 3 = K * s ∧ p - es * a * cc ^ 3 = K * c ∧ 0 < K := by
+  intro es eps b p Z T cc ss K
+  have hWne : W ≠ 0 := hW.ne'
+  have hcne : c ≠ 0 := hc.ne'
+  have hqne : q ≠ 0 := hq.ne'
+  have hane : a ≠ 0 := ha.ne'
+  have hT : T = q * s / c := by
+    simp only [T, Z, p, b]; field_simp
+  have hsq : Real.sqrt (1 + T * T) = W / c := by
+    rw [Real.sqrt_eq_iff_mul_self_eq (by nlinarith [mul_self_nonneg T]) (div_pos hW hc).le]
+    rw [hT]; field_simp; nlinarith
+  have hcc : cc = c / W := by simp only [cc, hsq]; field_simp
+  have hss : ss = q * s / W := by simp only [ss, hcc, hT]; field_simp
+  have hes1 : 1 - es = q ^ 2 := by simp [es]
+  refine ⟨?_, ?_, by positivity⟩
+  · simp only [eps, hes1, hss, Z, b, K, es]
+    field_simp
+    linear_combination s * hW2 + s * hcs
+  · simp only [hcc, p, K, es]
+    field_simp
+    linear_combination hW2 + q ^ 2 * hcs
+
+/-- `atan2 (K sin φ) (K cos φ) = φ` for `K > 0` and `φ` in `]-π, π]` -/
+theorem arg_polar (K phi : ℝ) (hK : 0 < K) (h1 : -Real.pi < phi) (h2 : phi ≤ Real.pi) :
+    Complex.arg ⟨K * Real.cos phi, K * Real.sin phi⟩ = phi := by
+  have : (⟨K * Real.cos phi, K * Real.sin phi⟩ : ℂ) = (K : ℂ) * (Complex.cos phi + Complex.sin phi * Complex.I) := by
+    apply Complex.ext <;> simp [Complex.cos_ofReal_re, Complex.sin_ofReal_re, Complex.cos_ofReal_im, Complex.sin_ofReal_im]
+  rw [this]
+  exact Complex.arg_mul_cos_add_sin_mul_I hK ⟨h1, h2⟩
+
+theorem bowring_surface_vars (a q s c W p Z b es eps : ℝ) (ha : 0 < a) (hq : 0 < q) (hc : 0 < c) (hW : 0 < W)
+    (hcs : s ^ 2 + c ^ 2 = 1) (hW2 : W ^ 2 = c ^ 2 + q ^ 2 * s ^ 2)
+    (hp : p = a * c / W) (hZ : Z = a * q ^ 2 * s / W) (hb : b = a * q) (hes : es = 1 - q ^ 2) (heps : eps = es / (1 - es)) :
+    Z + eps * b * (1 / Real.sqrt (1 + Z * a / (p * b) * (Z * a / (p * b))) * (Z * a / (p * b))) ^ 3 = a * q ^ 2 / W ^ 3 * s ∧
+    p - es * a * (1 / Real.sqrt (1 + Z * a / (p * b) * (Z * a / (p * b)))) ^ 3 = a * q ^ 2 / W ^ 3 * c ∧
+    0 < a * q ^ 2 / W ^ 3 := by
+  subst hp hZ hb hes heps
+  exact bowring_surface a q s c W ha hq hc hW hcs hW2
+
+/-- **Bowring's closed form is exact on the surface of the ellipsoid**: for every point of height zero that is
+not within 10^-12 m of the axis, `geographic (cartesian (λ, φ, 0, t)) = (λ, φ, 0, t)` -/
+theorem bowring_exact_on_surface (el : Ellipsoid ℝ) (ha : 0 < el.a) (hf0 : 0 < el.f) (hf1 : el.f < 1)
+    (lam phi t : ℝ) (hl1 : -Real.pi < lam) (hl2 : lam ≤ Real.pi)
+    (hp1 : -(Real.pi / 2) < phi) (hp2 : phi < Real.pi / 2)
+    (hfar : tinyLit ≤ el.a * Real.cos phi / Real.sqrt (1 - Real.sin phi ^ 2 * el.eccentricitySquared)) :
+    el.geographic (el.cartesian ⟨lam, phi, 0, t⟩) = ⟨lam, phi, 0, t⟩ := by
+  set q := 1 - el.f with hq
+  set s := Real.sin phi with hs
+  set c := Real.cos phi with hc
+  have hq0 : 0 < q := by simp only [hq]; linarith
+  have hc0 : 0 < c := Real.cos_pos_of_mem_Ioo ⟨hp1, hp2⟩
+  have hcs : s ^ 2 + c ^ 2 = 1 := Real.sin_sq_add_cos_sq phi
+  have hes : el.eccentricitySquared = 1 - q ^ 2 := by simp [Ellipsoid.eccentricitySquared, two, hq]; ring
+  have hw : 0 < 1 - s ^ 2 * el.eccentricitySquared := by
+    rw [hes]; nlinarith [sq_nonneg s, sq_nonneg c, sq_nonneg (q * s), mul_pos hq0 hq0]
+  set W := Real.sqrt (1 - s ^ 2 * el.eccentricitySquared) with hWdef
+  have hW0 : 0 < W := Real.sqrt_pos.mpr hw
+  have hW2 : W ^ 2 = c ^ 2 + q ^ 2 * s ^ 2 := by
+    rw [hWdef, Real.sq_sqrt hw.le, hes]; nlinarith
+  have hfne : el.f ≠ 0 := ne_of_gt hf0
+  have hN : el.primeVerticalRadiusOfCurvature phi = el.a / W := by
+    simp only [Ellipsoid.primeVerticalRadiusOfCurvature, scalar_beq, Scalar.sq, one, scalar_sin, scalar_sqrt]
+    have z : (@OfNat.ofNat ℝ 0 Scalar.instOfNat) = 0 := by
+      show (Scalar.ofNatLit 0 : ℝ) = 0
+      simp
+    rw [z]
+    simp [hfne, hWdef, hs, sq]
+  have hb : el.semiminorAxis = el.a * q := by simp [Ellipsoid.semiminorAxis, one, hq]
+  have heps : el.secondEccentricitySquared = el.eccentricitySquared / (1 - el.eccentricitySquared) := by
+    simp [Ellipsoid.secondEccentricitySquared, one]
+  -- the cartesian coordinates
+  set p := el.a * c / W with hpdef
+  set Zv := el.a * q ^ 2 * s / W with hZdef
+  have hp0 : 0 < p := by positivity
+  have hcart : el.cartesian ⟨lam, phi, 0, t⟩ = ⟨p * Real.cos lam, p * Real.sin lam, Zv, t⟩ := by
+    simp only [Ellipsoid.cartesian, hN, one, scalar_sin, scalar_cos, add_zero, hes]
+    congr 1
+    · simp only [hpdef]; ring
+    · simp only [hpdef]; ring
+    · simp only [hZdef]; field_simp; ring
+  rw [hcart]
+  have hhyp : Scalar.hypot (p * Real.cos lam) (p * Real.sin lam) = p := by
+    rw [scalar_hypot]
+    have : p * Real.cos lam * (p * Real.cos lam) + p * Real.sin lam * (p * Real.sin lam) = p ^ 2 := by
+      have := Real.cos_sq_add_sin_sq lam; nlinarith
+    rw [this, Real.sqrt_sq hp0.le]
+  have hlam : Scalar.atan2 (p * Real.sin lam) (p * Real.cos lam) = lam := by
+    rw [scalar_atan2]; exact arg_polar p lam hp0 hl1 hl2
+  obtain ⟨hnum, hden, hK⟩ := bowring_surface_vars el.a q s c W p Zv el.semiminorAxis el.eccentricitySquared
+    el.secondEccentricitySquared ha hq0 hc0 hW0 hcs hW2 rfl rfl hb hes heps
+  set K := el.a * q ^ 2 / W ^ 3 with hKdef
+  have hbranch : Scalar.lt p (@OfScientific.ofScientific ℝ Scalar.instOfScientific 10 true 13) = false := by
+    rw [scalar_lt]
+    have : ¬ p < tinyLit := not_lt.mpr hfar
+    simpa [tinyLit] using this
+  simp only [Ellipsoid.geographic, hhyp, hlam, hbranch, Bool.false_eq_true, if_false, powi_three, powi_two, one,
+    scalar_sqrt, hnum, hden]
+  have hphi : Scalar.atan2 (K * s) (K * c) = phi := by
+    rw [scalar_atan2]
+    exact arg_polar K phi hK (by linarith [Real.pi_pos]) (by linarith [Real.pi_pos])
+  have hlen : Scalar.hypot (K * s) (K * c) = K := by
+    rw [scalar_hypot]
+    have : K * s * (K * s) + K * c * (K * c) = K ^ 2 := by nlinarith
+    rw [this, Real.sqrt_sq hK.le]
+  have hKne : K ≠ 0 := hK.ne'
+  have hs' : K * s / K = s := by field_simp
+  have hc' : K * c / K = c := by field_simp
+  rw [hphi, hlen, hs', hc', ← hWdef]
+  have hW0' : W ≠ 0 := hW0.ne'
+  have hane : el.a ≠ 0 := ha.ne'
+  have hh : p * c + Zv * s - el.a * el.a / (el.a / W) = 0 := by
+    simp only [hpdef, hZdef]
+    have hW2' : W ^ 2 = c ^ 2 + (1 - el.f) ^ 2 * s ^ 2 := by rw [hW2, hq]
+    field_simp
+    linear_combination (-el.a) * hW2'
+  rw [hh]
+
 /-! ### the built-in table -/
 
 /-- **every name in the built-in ellipsoid table carries a semi-major axis and a reciprocal
